@@ -120,6 +120,15 @@ def bounded_cases(seed, thorough=False):
              'parsed AIF export': pgp.isotherm_from_aif(big.to_aif()).iso_id}
     okb = len(set(ids_b.values())) == 1
     yield {'name': 'construction_route|parse_of_export_eight_decimals_above_one', 'ok': okb, 'detail': '' if okb else str(ids_b)}
+    # data in which a point occurs twice (an equilibrium point logged twice): where it occurs, and whether it occurs, is content
+    def rep(p_, l_):
+        return pygaps.PointIsotherm(pressure=p_, loading=l_, branch=[0] * len(p_), **meta)
+    twice = {'repeated at (0.2, 2.1)': rep([0.1, 0.2, 0.2, 0.9], [1.0, 2.1, 2.1, 4.5]), 'repeated at (0.6, 3.9)': rep([0.1, 0.6, 0.6, 0.9], [1.0, 3.9, 3.9, 4.5]),
+             'without the repeated point': rep([0.1, 0.9], [1.0, 4.5]), 'every row twice, A': rep([0.1, 0.1, 0.5, 0.5], [1.0, 1.0, 3.0, 3.0]),
+             'every row twice, B': rep([0.2, 0.2, 0.7, 0.7], [1.5, 1.5, 4.0, 4.0]), 'point three times': rep([0.1, 0.2, 0.2, 0.2, 0.9], [1.0, 2.1, 2.1, 2.1, 4.5])}
+    ids_t = {k: v.iso_id for k, v in twice.items()}
+    coll = [f"{a} == {b}" for i, a in enumerate(ids_t) for b in list(ids_t)[i + 1:] if ids_t[a] == ids_t[b]]
+    yield {'name': 'construction_route|repeated_points_are_content', 'ok': not coll, 'detail': '; '.join(coll[:3])}
     ints = pygaps.PointIsotherm(pressure=[1, 2, 3], loading=[1, 2, 3], **meta).iso_id
     flts = pygaps.PointIsotherm(pressure=[1., 2., 3.], loading=[1., 2., 3.], **meta).iso_id
     yield {'name': 'construction_route|integer_vs_float_literals', 'ok': ints == flts, 'detail': '' if ints == flts else f"{ints} != {flts}"}
